@@ -1,3 +1,4 @@
+(* ocamlfind-flags: -package zarith -linkpkg *)
 (* fit_driver.ml — runs the extracted fit model (FitModel.v) on the case file that also feeds the C++
    harness (format: harness/C09_harness.cpp), in exact rational arithmetic, and prints the normal matrix,
    right-hand side and the intermediate objects as exact rationals "num/den".
